@@ -181,6 +181,10 @@ LEFT = {
     'link-to-file': (['file real.txt = x', '$ ln -s real.txt link'], ['act/real.txt', 'act/link']),
     'dangling-link': (['$ ln -s nowhere link'], ['act/link']),
     'link-to-dir-outside': (['$ ln -s "$VERIF_OUTSIDE" link'], ['act/link']),
+    'file-in-root': (['$ echo x > ../program.log'], ['program.log']),
+    'dir-in-root': (['$ mkdir ../cache-dir', '$ echo x > ../cache-dir/f'], ['cache-dir', 'cache-dir/f']),
+    'ro-dir-in-root': (['$ mkdir ../cache-dir', '$ echo x > ../cache-dir/f', '$ chmod a-w ../cache-dir'],
+                       ['cache-dir', 'cache-dir/f']),
 }
 
 
